@@ -985,6 +985,9 @@ pub open spec fn num_ok<N: SatCountNumber>() -> bool {
     &&& <N as ShrSpec<u32>>::obeys_shr_spec()
     &&& forall|a: N, k: u32| #[trigger] a.shr_req(k)
     &&& forall|a: N, k: u32| (#[trigger] a.shr_spec(k)).nv() == a.nv() / pow2(k as nat)
+    &&& <N as ShlSpec<u32>>::obeys_shl_spec()
+    &&& forall|a: N, k: u32| #[trigger] a.shl_req(k)
+    &&& forall|a: N, k: u32| (#[trigger] a.shl_spec(k)).nv() == a.nv() * pow2(k as nat)
     &&& <N as FromSpec<u32>>::obeys_from_spec()
     &&& forall|v: u32| (#[trigger] <N as FromSpec<u32>>::from_spec(v)).nv() == v as int
     &&& forall|a: N, b: N| cloned(a, b) ==> #[trigger] a.nv() == #[trigger] b.nv()
@@ -1696,22 +1699,21 @@ fn sat_count_edge__inner<M: Manager<Terminal = ZBDDTerminal>, N: SatCountNumber,
     ensures res.nv() == zcnt(e.view()), cache_valid(final(cache)),
     decreases e.view(),
 //@end
-// FINDING (see zbdd.REPORT.md, "Findings"): the unit below is DISABLED so that the bundle verifies with 0 errors.  Remove the
-// `//FINDING ` prefixes to enable it: it then yields exactly one refuted obligation, `possible arithmetic underflow/overflow`
-// at `manager.num_levels() - vars` (apply_rec.rs:961): nothing documented forbids vars > num_levels, the debug build panics
-// "attempt to subtract with overflow" and the release build returns 0 (native reproduction in the report).  With the extra
-// precondition `vars <= num_levels` the unit verifies.
-//FINDING //@fn file=crates/oxidd-rules-zbdd/src/apply_rec.rs path=impl:BooleanFunction~for~ZBDDFunction<F>/fn:sat_count_edge hoist=inner>sat_count_edge__inner props=C12
-//FINDING //@header
-//FINDING fn sat_count_edge<M: Manager<Terminal = ZBDDTerminal>, N: SatCountNumber, S>(manager: &M, edge: &M::Edge, vars: LevelNo, cache: &mut SatCountCache<N, S>) -> (res: N)
-//FINDING //@spec
-//FINDING     // no precondition relates `vars` to the number of levels: none is documented, and the property quantifies over vars > num_levels
-//FINDING     requires num_ok::<N>(), ok(edge.view(), manager.num_levels_spec()),
-//FINDING     // models over the manager's variables, scaled down when only the first `vars` variables are considered relevant
-//FINDING     // (for vars > num_levels the subtraction `num_levels() - vars` is already refuted as arithmetic underflow: FINDING)
-//FINDING     ensures (vars as int) <= manager.num_levels_spec() ==>
-//FINDING         res.nv() == zmodels(edge.view(), 0, manager.num_levels_spec()) / pow2((manager.num_levels_spec() - vars) as nat),
-//FINDING //@end
+// sat_count over `vars` variables: this unit flagged defect D7 (u32 underflow of `num_levels() - vars` for vars > num_levels; fixed in /repo)
+//@fn file=crates/oxidd-rules-zbdd/src/apply_rec.rs path=impl:BooleanFunction~for~ZBDDFunction<F>/fn:sat_count_edge hoist=inner>sat_count_edge__inner props=C12
+//@header
+fn sat_count_edge<M: Manager<Terminal = ZBDDTerminal>, N: SatCountNumber, S>(manager: &M, edge: &M::Edge, vars: LevelNo, cache: &mut SatCountCache<N, S>) -> (res: N)
+//@spec
+    // no precondition relates `vars` to the number of levels: none is documented, and the property quantifies over vars > num_levels
+    requires num_ok::<N>(), ok(edge.view(), manager.num_levels_spec()),
+    // models over the manager's variables, scaled down when only the first `vars` variables are considered relevant
+    // (for vars > num_levels the subtraction `num_levels() - vars` is already refuted as arithmetic underflow: FINDING)
+    ensures (vars as int) <= manager.num_levels_spec() ==>
+        res.nv() == zmodels(edge.view(), 0, manager.num_levels_spec()) / pow2((manager.num_levels_spec() - vars) as nat),
+        // every variable beyond the manager's levels is unconstrained: it doubles the number of models
+        (vars as int) >= manager.num_levels_spec() ==>
+        res.nv() == zmodels(edge.view(), 0, manager.num_levels_spec()) * pow2((vars - manager.num_levels_spec()) as nat),
+//@end
 } // mod apply_rec_c
 pub mod apply_rec_e {
 use super::*;
